@@ -560,9 +560,17 @@ func (c *Conn) Close() error {
 // If the connection is closed before the request reaches the write loop, the
 // Ctx is resolved with the reason instead of being left to time out.
 func (c *Conn) Write(r *Ctx) {
+	if verifOn {
+		vCliEv(c, "in.q", 0, 0)
+	}
+
 	select {
 	case c.in <- r:
 	case <-c.done:
+		if verifOn {
+			vCliEv(c, "in.drop", 0, 0)
+		}
+
 		r.resolve(c.closeErr())
 
 		return
@@ -581,9 +589,17 @@ func (c *Conn) Write(r *Ctx) {
 // writeOut queues a connection-level frame. It drops the frame rather than
 // blocking forever when the write loop has already exited.
 func (c *Conn) writeOut(fr *FrameHeader) {
+	if verifOn {
+		vCliEv(c, "out.q", 0, 0)
+	}
+
 	select {
 	case c.out <- fr:
 	case <-c.done:
+		if verifOn {
+			vCliEv(c, "out.drop", 0, 0)
+		}
+
 		ReleaseFrameHeader(fr)
 	}
 }
@@ -1207,6 +1223,9 @@ func (c *Conn) addWindow(streamID uint32, inc int32) {
 func (c *Conn) signalWindow() {
 	select {
 	case c.winCh <- struct{}{}:
+		if verifOn {
+			vCliEv(c, "win.q", 0, 0)
+		}
 	default:
 	}
 }
